@@ -55,6 +55,7 @@ func (q *MultiOpQueryer) Subscribe(req *requests.Request, closeCh <-chan struct{
 		<-closeCh
 		common.VerifPoint(vid, "sub.closer.close")
 		conn.Close()
+		common.VerifPoint(vid, "sub.closer.done")
 	}()
 
 	go func() {
@@ -65,10 +66,12 @@ func (q *MultiOpQueryer) Subscribe(req *requests.Request, closeCh <-chan struct{
 			common.VerifPoint(vid, "sub.reader.exit")
 			conn.Close()
 			// indicate that it's done
+			common.VerifPoint(vid, "sub.reader.exit.nil")
 			select {
 			case resCh <- nil:
 			case <-closeCh:
 			}
+			common.VerifPoint(vid, "sub.reader.done")
 		}()
 
 		bInitMsg, err := json.Marshal(requests.ClientSubMsg{
@@ -117,10 +120,13 @@ func (q *MultiOpQueryer) Subscribe(req *requests.Request, closeCh <-chan struct{
 				if innerErr := json.Unmarshal(msg, &serverErrorResp); innerErr != nil {
 					return
 				}
+				common.VerifPoint(vid, "sub.reader.send")
 				select {
 				case resCh <- &requests.Response{Errors: serverErrorResp.Payload}:
+					common.VerifPoint(vid, "sub.reader.sent")
 				case <-closeCh:
 					// nobody listens any more
+					common.VerifPoint(vid, "sub.reader.aborted")
 					return
 				}
 				continue
@@ -133,10 +139,13 @@ func (q *MultiOpQueryer) Subscribe(req *requests.Request, closeCh <-chan struct{
 				requests.SubError:
 				return
 			case requests.SubData:
+				common.VerifPoint(vid, "sub.reader.send")
 				select {
 				case resCh <- serverResp.Payload:
+					common.VerifPoint(vid, "sub.reader.sent")
 				case <-closeCh:
 					// nobody listens any more
+					common.VerifPoint(vid, "sub.reader.aborted")
 					return
 				}
 			}
